@@ -295,6 +295,24 @@ def w_iradon_images(item, seed=0, quick=True):
     for aname, theta in sets:
         for batch in (1, 3):
             check_iradon_case(t, N, aname, theta, f, descs, seed, batch=batch)
+    if N in (5, 8, 22):
+        # dtype corner: integer / bool / float64 sinogram tensors (HEAD reconstructs them like their float32 values)
+        torch, R = _lib()
+        for dt_name in ("float64", "int16", "uint8", "int64", "bool"):
+            vals = np.round(make_sino(("snoise", 0), N, IRREG, seed) * (1 if dt_name == "bool" else 50))
+            st = torch.tensor(vals).to(getattr(torch, dt_name))
+            case = {"kind": "iradon_dtype", "N": N, "filter": f, "dtype": dt_name}
+            t.case(key=case, nontrivial=True)
+            try:
+                got = R.iradon_torch(st, theta=torch.tensor(IRREG, dtype=torch.float32), filter_name=f, circle=True).numpy().astype(np.float64)
+            except Exception as ex:  # HEAD accepts these dtypes: raising is a verdict
+                t.fail({"relation": "iradon_accepts_sinogram_dtype", "dtype": dt_name}, case, f"iradon_torch raised {type(ex).__name__} for a {dt_name} sinogram (N={N}, filter={f}): {str(ex)[:150]}")
+                continue
+            ref = _iradon_ref(st.numpy().astype(np.float64), IRREG, f)
+            e = rel_err(got, ref)
+            t.stat("iradon_dtype_rel_err", e)
+            if e > TOL_IRADON:
+                t.fail({"relation": "iradon_vs_skimage", "dtype": dt_name, "filter": str(f)}, case, f"iradon_torch on a {dt_name} sinogram (N={N}, filter={f}) differs from skimage.iradon of the same values by {e:.3e} of max (tol {TOL_IRADON})")
     theta = IRREG
     a, b = make_sino(("snoise", 0), N, theta, seed), make_sino(("snoise", 1), N, theta, seed)
     lhs = _iradon_lib(1.5 * a - 0.7 * b, theta, f)
@@ -382,6 +400,7 @@ def run(ctx):
         "float32 implementation vs float64 reference: tolerances filter 2e-5, radon 5e-5, iradon 2.5e-4 of the output maximum",
         "linearity of implementation and oracle extends delta-basis agreement to every image of that size and angle set",
         "square images only; default linear interpolation in iradon",
+        "sinogram dtypes float32/float64/int16/uint8/int64/bool (what the unchanged tree accepts); radon_torch itself only accepts float32 images on the unchanged tree (float64 and integer images raise inside torch.grid_sample) — outside the property's quantifier, not judged",
     )
 
     def once():
@@ -444,6 +463,9 @@ def replay(ctx, case):
         print(f"  last call after the history: {'differs by %.3e' % e if e is not None else 'agrees'}; alone: {'differs by %.3e' % alone if alone is not None else 'agrees'}")
         if e is not None:
             t.fail({"relation": "result_independent_of_earlier_calls", "last_call": hist[-1][0]}, case, f"history {case['history']}: last call differs from the reference by {e:.3e}")
+    elif k == "iradon_dtype":
+        r = w_iradon_images((case["N"], case["filter"]), seed=seed, quick=True)
+        t.fails = [f for f in r.fails if f["case"].get("kind") == "iradon_dtype" and f["case"].get("dtype") == case["dtype"]]
     elif k == "radon_linearity":
         t = w_radon_images(case["N"], seed=seed, quick=True)
     elif k == "iradon_linearity":
